@@ -439,11 +439,13 @@ func (fc *fileController) rejuvenate(fileKey uint16) error {
 }
 
 func (fc *fileController) atDescriptorLimit() bool {
-	fc.writers.RLock()
+	// Lock order: readers before writers, as in garbage collection, which holds the
+	// readers lock for a whole compaction and takes the writers lock at its end.
 	fc.readers.RLock()
+	fc.writers.RLock()
 	defer func() {
-		fc.readers.RUnlock()
 		fc.writers.RUnlock()
+		fc.readers.RUnlock()
 	}()
 	readerCount := 0
 	for _, f := range fc.readers.files {
@@ -455,11 +457,11 @@ func (fc *fileController) atDescriptorLimit() bool {
 }
 
 func (fc *fileController) close() error {
-	fc.writers.RLock()
 	fc.readers.RLock()
+	fc.writers.RLock()
 	defer func() {
-		fc.readers.RUnlock()
 		fc.writers.RUnlock()
+		fc.readers.RUnlock()
 	}()
 	var err error
 	for _, w := range fc.writers.open {
